@@ -447,7 +447,9 @@ def programs(tier="quick"):
         for caller in ("main", "sub"):
             for callee in ("read", "rmw"):
                 out.append((3, f11(where, caller, callee), _inputs((0, 1, 2, 3))))
-    for style in ("helper", "self"):
+    # (style 'self' - the recursive routine itself takes the by-reference parameter - is refused by PyTeal
+    # ("ScratchVar arguments not allowed in recursive subroutines"): not a member of the population)
+    for style in ("helper",):
         for when in ("before", "after"):
             for nl in range(0, max_loc + 1):
                 out.append((3 + nl, f9(style, when, nl), _inputs((0, 1, 2, 3))))
